@@ -4,6 +4,7 @@
 //!   rl_harness gen <Cxx> <quick|thorough> <seed>      -> ops on stdout
 //!   rl_harness run                                    -> reads ops on stdin, answers on stdout
 //!   rl_harness dump <what>                            -> table dumps for the translator (C07)
+mod curves;
 mod dates;
 mod duals;
 mod hols;
@@ -15,6 +16,7 @@ pub struct State {
     pub dates: dates::DateState,
     pub hols: hols::HolState,
     pub duals: duals::DualState,
+    pub curves: curves::CurveState,
 }
 
 fn run() {
@@ -27,6 +29,7 @@ fn run() {
         dates: dates::DateState::default(),
         hols: hols::HolState::default(),
         duals: duals::DualState::default(),
+        curves: curves::CurveState::default(),
     };
     for line in stdin.lock().lines() {
         let line = line.unwrap();
@@ -40,12 +43,16 @@ fn step(st: &mut State, toks: &[&str]) -> String {
     if toks == ["reset"] {
         st.dates = dates::DateState::default();
         st.duals = duals::DualState::default();
+        st.curves = curves::CurveState::default();
         return "ok".to_string();
     }
     if let Some(a) = dates::step(&mut st.dates, toks) {
         return a;
     }
     if let Some(a) = duals::step(&mut st.duals, toks) {
+        return a;
+    }
+    if let Some(a) = curves::step(&st.duals, &mut st.curves, toks) {
         return a;
     }
     if let Some(a) = hols::step(&mut st.hols, toks) {
@@ -69,6 +76,8 @@ fn main() {
                 "C01" => duals::gen_c01(&mut out, thorough, seed),
                 "C02" => duals::gen_c02(&mut out, thorough, seed),
                 "C03" => duals::gen_c03(&mut out, thorough, seed),
+                "C11" => curves::gen_c11(&mut out, thorough, seed),
+                "C12" => curves::gen_c12(&mut out, thorough, seed),
                 "C17" => duals::gen_c17(&mut out, thorough, seed),
                 "C18" => duals::gen_c18(&mut out, thorough, seed),
                 "C19" => duals::gen_c19(&mut out, thorough, seed),
